@@ -67,9 +67,12 @@ def run(ctx):
             if d == w:
                 found.setdefault(label, []).append((sb, te))
     r1 = chk.rule("R1-bounds-checked-after-every-definition", "every assignment to range.start / range.end is followed, on every path to the loop back-edge or the Ok return, by the checks end<=length, start<=length, start<=end, whose failing edge returns Err", floor=4)
+    # start <= length follows from the other two (start <= end <= length): where both are in force it is not required separately
+    others_present = [x for x in want if x != "start<=length" and x in found]
+    implied = len(others_present) == len(want) - 1
     for label, w in want.items():
-        ok = label in found
-        r1.instance({"check": label, "comparison": w, "present": ok}, ok)
+        ok = label in found or (label == "start<=length" and implied)
+        r1.instance({"check": label, "comparison": w, "present": label in found, "implied_by_the_other_two": label == "start<=length" and implied}, ok)
         if not ok:
             r1.violate("C03|R1|missing|%s" % label, "%s has no check %s (%s %s %s -> Err): a range reaching outside the file, or reversed, would be read" % (SPEC_PARSER, label, w[1], {"Gt": ">"}.get(w[0], w[0]), w[2]), sp.file, sp.span["line"], sp.def_)
     # failing edge returns Err
@@ -82,6 +85,9 @@ def run(ctx):
         builds_err = any(s["k"] == "assign" and s["rv"]["k"] == "aggregate" and s["rv"].get("variant") == "Err" for b in region for s in cfg.blocks[b]["stmts"])
         builds_ok = any(s["k"] == "assign" and s["rv"]["k"] == "aggregate" and s["rv"].get("variant") == "Ok" and s["place"]["l"] == 0 and not s["place"]["p"] for b in region for s in cfg.blocks[b]["stmts"])
         ok = builds_err and not builds_ok and any(r_ in region for r_ in cfg.return_blocks())
+        if not ok and label == "start<=length" and implied:
+            r1.note("the failing edge of start<=length does not return Err by itself; start<=end<=length rejects the same ranges")
+            continue
         r1.instance({"check": label, "failing_edge_returns_Err": ok}, ok)
         if not ok:
             r1.violate("C03|R1|no-err|%s" % label, "the failing edge of check %s does not return Err" % label, sp.file, cfg.blocks[sb]["term"]["span"]["line"], sp.def_)
@@ -99,6 +105,8 @@ def run(ctx):
         k += 1
         # must pass through every check block before reaching a loop header again or the Ok return
         for label, lst in found.items():
+            if label == "start<=length" and implied:
+                continue
             sbs = [sb for sb, _ in lst]
             if bid in sbs:
                 reach = set()
